@@ -29,19 +29,71 @@ open Statrs Statrs.Gen Statrs.Spec.Incomplete
 /-- a real sequence on ℤ that does not decrease at any step `k → k+1` (k ≥ 0) is monotone on `k ≥ 0` -/
 theorem int_mono_of_step {f : ℤ → ℝ} (h : ∀ k, 0 ≤ k → f k ≤ f (k + 1)) {j k : ℤ}
     (hj : 0 ≤ j) (hjk : j ≤ k) : f j ≤ f k := by
-  induction k, hjk using Int.le_induction with
+  induction k, hjk using Int.leInduction with
   | base => exact le_rfl
   | succ k hk ih => exact ih.trans (h k (hj.trans hk))
 
 /-- same, for non-increasing steps -/
 theorem int_anti_of_step {f : ℤ → ℝ} (h : ∀ k, 0 ≤ k → f (k + 1) ≤ f k) {j k : ℤ}
     (hj : 0 ≤ j) (hjk : j ≤ k) : f k ≤ f j := by
-  induction k, hjk using Int.le_induction with
+  induction k, hjk using Int.leInduction with
   | base => exact le_rfl
   | succ k hk ih => exact (h k (hj.trans hk)).trans ih
 
 theorem usub_of_le {a b : ℤ} (h : b ≤ a) : usub a b = a - b := by
   unfold usub; rw [if_neg (not_lt.mpr h)]
+
+/-! ### arguments handed to the special functions -/
+
+/-- the argument `h = ν / (ν + k²)` that `StudentsT::cdf`/`sf` hand to `beta_reg` -/
+noncomputable def tArg (d : StudentsT ℝ) (x : ℝ) : ℝ :=
+  d.f_freedom / (d.f_freedom + (x - d.f_location) / d.f_scale * ((x - d.f_location) / d.f_scale))
+
+/-- the argument `d₁x / (d₁x + d₂)` of `FisherSnedecor::cdf` -/
+noncomputable def fArg (d : FisherSnedecor ℝ) (x : ℝ) : ℝ :=
+  d.f_freedom_1 * x / (d.f_freedom_1 * x + d.f_freedom_2)
+
+
+theorem tArg_pos (d : StudentsT ℝ) (hν : 0 < d.f_freedom) (x : ℝ) : 0 < tArg d x := by
+  unfold tArg; have := mul_self_nonneg ((x - d.f_location) / d.f_scale); positivity
+
+theorem tArg_le_one (d : StudentsT ℝ) (hν : 0 < d.f_freedom) (x : ℝ) : tArg d x ≤ 1 := by
+  unfold tArg
+  have := mul_self_nonneg ((x - d.f_location) / d.f_scale)
+  rw [div_le_one (by linarith)]; linarith
+
+/-- `h` shrinks when `|x − μ|` grows -/
+theorem tArg_le_of_sq_le (d : StudentsT ℝ) (hν : 0 < d.f_freedom) {x y : ℝ}
+    (h : (y - d.f_location) / d.f_scale * ((y - d.f_location) / d.f_scale)
+       ≤ (x - d.f_location) / d.f_scale * ((x - d.f_location) / d.f_scale)) :
+    tArg d x ≤ tArg d y := by
+  unfold tArg
+  have := mul_self_nonneg ((y - d.f_location) / d.f_scale)
+  apply div_le_div_of_nonneg_left hν.le (by linarith) (by linarith)
+
+theorem fArg_nonneg (d : FisherSnedecor ℝ) (h1 : 0 < d.f_freedom_1) (h2 : 0 < d.f_freedom_2)
+    {x : ℝ} (hx : 0 ≤ x) : 0 ≤ fArg d x := by
+  unfold fArg; have := mul_nonneg h1.le hx; positivity
+
+theorem fArg_le_one (d : FisherSnedecor ℝ) (h1 : 0 < d.f_freedom_1) (h2 : 0 < d.f_freedom_2)
+    {x : ℝ} (hx : 0 ≤ x) : fArg d x ≤ 1 := by
+  unfold fArg; have := mul_nonneg h1.le hx
+  rw [div_le_one (by linarith)]; linarith
+
+theorem fArg_mono (d : FisherSnedecor ℝ) (h1 : 0 < d.f_freedom_1) (h2 : 0 < d.f_freedom_2)
+    {x y : ℝ} (hx : 0 ≤ x) (hxy : x ≤ y) : fArg d x ≤ fArg d y := by
+  unfold fArg
+  have hx' := mul_nonneg h1.le hx
+  have hy' := mul_nonneg h1.le (hx.trans hxy)
+  rw [div_le_div_iff₀ (by linarith) (by linarith)]
+  have : d.f_freedom_1 * x ≤ d.f_freedom_1 * y := mul_le_mul_of_nonneg_left hxy h1.le
+  nlinarith
+
+theorem fArg_zero (d : FisherSnedecor ℝ) : fArg d 0 = 0 := by unfold fArg; simp
+
+theorem bernoulli_cdf_real (d : Bernoulli ℝ) (k : ℤ) :
+    Bernoulli.cdf d k = if 1 ≤ k then 1 else 1 - d.f_b.f_p := by
+  unfold Bernoulli.cdf Binomial.p; split_ifs <;> norm_num
 
 section SFR
 variable [SF ℝ]
@@ -86,10 +138,6 @@ theorem beta_sf_real (d : Beta ℝ) (x : ℝ) :
       else SF.beta_reg d.f_shape_b d.f_shape_a (1 - x) := by
   unfold Beta.sf; rfun_norm; norm_num
 
-/-- the argument `h = ν / (ν + k²)` that `StudentsT::cdf`/`sf` hand to `beta_reg` -/
-noncomputable def tArg (d : StudentsT ℝ) (x : ℝ) : ℝ :=
-  d.f_freedom / (d.f_freedom + (x - d.f_location) / d.f_scale * ((x - d.f_location) / d.f_scale))
-
 theorem students_t_cdf_real (d : StudentsT ℝ) (x : ℝ) :
     StudentsT.cdf d x =
       if x ≤ d.f_location then 0.5 * SF.beta_reg (d.f_freedom / 2) 0.5 (tArg d x)
@@ -101,10 +149,6 @@ theorem students_t_sf_real (d : StudentsT ℝ) (x : ℝ) :
       if x ≤ d.f_location then 1 - 0.5 * SF.beta_reg (d.f_freedom / 2) 0.5 (tArg d x)
       else 0.5 * SF.beta_reg (d.f_freedom / 2) 0.5 (tArg d x) := by
   unfold StudentsT.sf tArg; rfun_norm; norm_num
-
-/-- the argument `d₁x / (d₁x + d₂)` of `FisherSnedecor::cdf` -/
-noncomputable def fArg (d : FisherSnedecor ℝ) (x : ℝ) : ℝ :=
-  d.f_freedom_1 * x / (d.f_freedom_1 * x + d.f_freedom_2)
 
 theorem fisher_snedecor_cdf_real (d : FisherSnedecor ℝ) (x : ℝ) :
     FisherSnedecor.cdf d x = if x < 0 then 0
@@ -148,50 +192,7 @@ theorem poisson_sf_real (d : Poisson ℝ) (k : ℤ) :
     Poisson.sf d k = SF.gamma_lr ((k : ℝ) + 1) d.f_lambda := by
   unfold Poisson.sf; rfun_norm; norm_num
 
-theorem bernoulli_cdf_real (d : Bernoulli ℝ) (k : ℤ) :
-    Bernoulli.cdf d k = if 1 ≤ k then 1 else 1 - d.f_b.f_p := by
-  unfold Bernoulli.cdf Binomial.p; split_ifs <;> norm_num
-
 theorem bernoulli_sf_real (d : Bernoulli ℝ) (k : ℤ) : Bernoulli.sf d k = Binomial.sf d.f_b k := rfl
-
-/-! ### arguments handed to the special functions -/
-
-theorem tArg_pos (d : StudentsT ℝ) (hν : 0 < d.f_freedom) (x : ℝ) : 0 < tArg d x := by
-  unfold tArg; have := mul_self_nonneg ((x - d.f_location) / d.f_scale); positivity
-
-theorem tArg_le_one (d : StudentsT ℝ) (hν : 0 < d.f_freedom) (x : ℝ) : tArg d x ≤ 1 := by
-  unfold tArg
-  have := mul_self_nonneg ((x - d.f_location) / d.f_scale)
-  rw [div_le_one (by linarith)]; linarith
-
-/-- `h` shrinks when `|x − μ|` grows -/
-theorem tArg_le_of_sq_le (d : StudentsT ℝ) (hν : 0 < d.f_freedom) {x y : ℝ}
-    (h : (y - d.f_location) / d.f_scale * ((y - d.f_location) / d.f_scale)
-       ≤ (x - d.f_location) / d.f_scale * ((x - d.f_location) / d.f_scale)) :
-    tArg d x ≤ tArg d y := by
-  unfold tArg
-  have := mul_self_nonneg ((y - d.f_location) / d.f_scale)
-  apply div_le_div_of_nonneg_left hν.le (by linarith) (by linarith)
-
-theorem fArg_nonneg (d : FisherSnedecor ℝ) (h1 : 0 < d.f_freedom_1) (h2 : 0 < d.f_freedom_2)
-    {x : ℝ} (hx : 0 ≤ x) : 0 ≤ fArg d x := by
-  unfold fArg; have := mul_nonneg h1.le hx; positivity
-
-theorem fArg_le_one (d : FisherSnedecor ℝ) (h1 : 0 < d.f_freedom_1) (h2 : 0 < d.f_freedom_2)
-    {x : ℝ} (hx : 0 ≤ x) : fArg d x ≤ 1 := by
-  unfold fArg; have := mul_nonneg h1.le hx
-  rw [div_le_one (by linarith)]; linarith
-
-theorem fArg_mono (d : FisherSnedecor ℝ) (h1 : 0 < d.f_freedom_1) (h2 : 0 < d.f_freedom_2)
-    {x y : ℝ} (hx : 0 ≤ x) (hxy : x ≤ y) : fArg d x ≤ fArg d y := by
-  unfold fArg
-  have hx' := mul_nonneg h1.le hx
-  have hy' := mul_nonneg h1.le (hx.trans hxy)
-  rw [div_le_div_iff₀ (by linarith) (by linarith)]
-  have : d.f_freedom_1 * x ≤ d.f_freedom_1 * y := mul_le_mul_of_nonneg_left hxy h1.le
-  nlinarith
-
-theorem fArg_zero (d : FisherSnedecor ℝ) : fArg d 0 = 0 := by unfold fArg; simp
 
 /-! ### lattice steps in the code's argument shapes -/
 
